@@ -491,6 +491,16 @@ class Gen:
         # one context used for all 32 slots with boundary nonces in slots 0 and 31
         ks = nonces(32); ks[0] = N - 70; ks[31] = N - 1; ks[1] = 1
         self.sstream(d, idz, 16, [[r.bytes(6)] for _ in range(32)], ks, "sstream:32-rounds:every-slot")
+        # entropy failure in the middle of the refill, then the caller goes on with the same context:
+        # 32 signatures, a 33rd whose refill runs out of entropy after 10 nonces (error), a 34th with a
+        # full refill, a 35th from the refilled pool; every signature returned must verify
+        ks0 = nonces(32)
+        rounds = [([r.bytes(5)], []) for _ in range(32)] + [([r.bytes(5)], nonces(10)), ([r.bytes(6)], nonces(32)), ([r.bytes(7)], []), ([r.bytes(7)], nonces(3))]
+        rl = ";".join("%s@%s" % (chunks_line(c_), ent_hex(k_)) for c_, k_ in rounds)
+        gl = glist(["(%s, %s)" % (chunks_g(c_), q(ent_hex(k_))) for c_, k_ in rounds])
+        self.add(line="sstreamf %s %s %d %s %s" % (h(d), core.hexs(idz), 16, ent_hex(ks0), rl),
+                 expr="c01_sstreamf %s %s %s %s %s" % (q(h(d)), q(E.pt_hex(self.pub[d])), gid(idz, 16), q(ent_hex(ks0)), gl),
+                 cell="sstreamf:refill-fails-then-retry", kind="sstreamf", d=d, idbuf=idz, idlen=16, rounds=[c_ for c_, _ in rounds])
         # one-shot signing with Z
         for cls, idbuf, idlen in (("default-id", idz, 16), ("custom-id", b"bob@example", 11)):
             m = r.bytes(r.range(0, 200)); en = ent_hex(big(1))
@@ -575,6 +585,11 @@ def phase2(g, first, impl):
                 g.add(line="vctxr %s %s %d %s" % (E.pt_hex(P), core.hexs(c["idbuf"]), c["idlen"], rl),
                       expr="c01_vctxr %s %s %s" % (q(E.pt_hex(P)), gid(c["idbuf"], c["idlen"]), gl),
                       cell="vctxr:of-%s" % base, expect=",".join(["OK", "ERR"] + ["OK"] * (len(sigs) - 1)))
+        elif kind == "sstreamf":
+            P = g.pub[c["d"]]
+            for i, (sg, chunks) in enumerate(zip(w[0].split(","), c["rounds"])):
+                if sg == "ERR": continue
+                g.vstream(P, c["idbuf"], c["idlen"], [b"".join(chunks)], bytes.fromhex(sg), "vstream:of-%s" % base, expect="OK", model=(i >= 32))
         elif kind == "sign1":
             sgb = bytes.fromhex(w[0])
             g.vstream(g.pub[c["d"]], c["idbuf"], c["idlen"], r.split(c["msg"], 2), sgb, "vstream:of-%s" % base, expect="OK")
